@@ -667,7 +667,7 @@ func TestCheck(t *testing.T) {
 		r.Nontrivial("replay-b")
 		return
 	}
-	n := r.N(64, 800)
+	n := r.N(64, 16000)
 	rng := r.Rand("configs")
 	shard, _ := r.Shard()
 	maxPW := r.Pick(4, 16)
@@ -682,8 +682,8 @@ func TestCheck(t *testing.T) {
 			Workers:   1 + rng.Intn(maxPW),
 			Queue:     queues[rng.Intn(len(queues))],
 			Gens:      1 + rng.Intn(4),
-			Batches:   20 + rng.Intn(30),
-			Series:    1 + rng.Intn(3),
+			Batches:   20 + rng.Intn(r.Pick(30, 180)),
+			Series:    1 + rng.Intn(r.Pick(3, 6)),
 			Namespace: []string{"", "ns"}[rng.Intn(2)],
 			Expiry:    []string{"never", "immediate", "1h"}[rng.Intn(3)],
 			Bursty:    rng.Intn(2) == 0,
